@@ -30,7 +30,10 @@ def h(term, ty, src, n):
     body += "    kani::cover!(cs > 1);\n"
     name = cfg_name("c09", term, ty, src, f"n{n}")
     return H(name, body, {"terminal": term, "type": ty, "src": src, "n": n, "threads": 1, "chunk": "symbolic usize",
-                          "schedule": "sequential mode"}, unwind=(2 * n + 3 if ty in ("FL", "FLF") else n + 3),
+                          "schedule": "sequential mode"},
+             # map-only collects into / through a SplitVec convert it to a ConcurrentSplitVec: a loop over its 32 fragments
+             unwind=(34 if (ty in ("E", "M") and (term == "collect" or (term == "collect_vec" and src in ("iterf", "itervf"))))
+                     else 2 * n + 3 if ty in ("FL", "FLF") else n + 3),
              weight=n * 2 + (6 if term.startswith("collect") else 0))
 
 
